@@ -5,8 +5,10 @@ import (
 	"bytes"
 	"flag"
 	"fmt"
+	"math"
 	"os"
 	"os/exec"
+	"reflect"
 	"strings"
 	"sync"
 
@@ -25,6 +27,10 @@ func cmdSelftest(args []string) int {
 	seed := fs.Uint64("seed", envSeed(), "")
 	tier := fs.String("tier", "quick", "")
 	fs.Parse(args)
+	if err := oracleSelfTest(); err != nil {
+		fmt.Fprintln(os.Stderr, "selftest comparer:", err)
+		return exitInfra
+	}
 	var props []string
 	if *propsF != "" {
 		props = strings.Split(*propsF, ",")
@@ -114,4 +120,54 @@ func cmdSelftest(args []string) int {
 		return exitInfra
 	}
 	return exitOK
+}
+
+// oracleSelfTest checks the shared comparer and cloner on generated values of every type:
+// a clone is equal; equality is by bit pattern (NaN payloads, -0), nil list == empty list; a
+// change to any single leaf of a clone is detected; cloning copies text bytes and slices.
+func oracleSelfTest() error {
+	t := NewTape(0x5e1f7e57)
+	checked := 0
+	for round := 0; round < 3; round++ {
+		for _, name := range schema.Names {
+			g := &Gen{t: t, cfg: drawCfg(t, false)}
+			if g.cfg.ListCap > 17 {
+				g.cfg.ListCap = 17
+			}
+			if g.cfg.StrCap > 40 {
+				g.cfg.StrCap = 40
+			}
+			v := g.Value(name)
+			c := Clone(v)
+			if ok, d := Equal(v, c); !ok {
+				return fmt.Errorf("%s: clone differs from original at %s", name, d)
+			}
+			if n := mutateInPlace(reflect.ValueOf(c).Elem(), t.Bulk()); n > 0 {
+				if ok, _ := Equal(v, c); ok {
+					return fmt.Errorf("%s: %d leaves of a clone were changed but Equal still says equal (clone shares memory with the original, or the comparer is blind)", name, n)
+				}
+			}
+			checked++
+		}
+	}
+	type probe struct {
+		F []float64
+		L []string
+	}
+	a := &probe{F: []float64{math.Float64frombits(0x7ff8000000000001), math.Copysign(0, -1)}}
+	b := &probe{F: []float64{math.Float64frombits(0x7ff8000000000001), math.Copysign(0, -1)}, L: []string{}}
+	if ok, d := Equal(a, b); !ok {
+		return fmt.Errorf("NaN payload / -0 / nil-vs-empty list must compare equal: %s", d)
+	}
+	b.F[0] = math.Float64frombits(0x7ff8000000000002)
+	if ok, _ := Equal(a, b); ok {
+		return fmt.Errorf("different NaN payloads must compare different")
+	}
+	b.F[0] = a.F[0]
+	b.F[1] = 0
+	if ok, _ := Equal(a, b); ok {
+		return fmt.Errorf("-0 and +0 must compare different")
+	}
+	fmt.Printf("selftest comparer: clone/equal/mutation-detection on %d generated values of %d types ok\n", checked, len(schema.Names))
+	return nil
 }
